@@ -364,21 +364,6 @@ fn check_longest_match(cs: [char; 3], n: usize) {
     }
     kani::cover!(exp.is_none(), "cover_no_symbol");
     kani::cover!(matches!(exp, Some((_, 1))), "cover_single");
-    if n >= 2 {
-        kani::cover!(matches!(exp, Some((_, 2))), "cover_double");
-        kani::cover!(matches!(exp, Some((_, 1))) && cs[0] == '=' && cs[1] == '!', "cover_single_then_non_symbol");
-        kani::cover!(exp.is_none() && cs[0] == '!' && cs[1] != '=', "cover_lone_bang_then_other");
-    }
-    if n >= 3 {
-        kani::cover!(matches!(exp, Some((K::EqualsEqualsEquals, 3))), "cover_triple_eq");
-        kani::cover!(matches!(exp, Some((K::BangEqualsEquals, 3))), "cover_triple_bang");
-        kani::cover!(matches!(exp, Some((K::LessThanEquals, 2))) && cs[2] == '=', "cover_double_then_equals");
-        kani::cover!(matches!(exp, Some((K::PipePipe, 2))) && utf8_len(cs[2]) == 4, "cover_pipepipe_then_wide_char");
-    } else {
-        kani::cover!(exp.is_none() && cs[0] == '!', "cover_lone_bang_before_eof");
-        kani::cover!(exp.is_none() && cs[0] == '|', "cover_lone_pipe_before_eof");
-        kani::cover!(exp.is_none() && cs[0] == '&', "cover_lone_amp_before_eof");
-    }
     std::mem::forget(r);
     std::mem::forget(lx);
 }
@@ -389,6 +374,11 @@ fn check_longest_match(cs: [char; 3], n: usize) {
 fn c03_longest_symbol_1char() {
     let a: char = kani::any();
     check_longest_match([a, 'x', 'x'], 1);
+    kani::cover!(a == '!', "cover_lone_bang_before_eof");
+    kani::cover!(a == '|', "cover_lone_pipe_before_eof");
+    kani::cover!(a == '&', "cover_lone_amp_before_eof");
+    kani::cover!(a == '=', "cover_lone_equals_before_eof");
+    kani::cover!((a as u32) > 0xFFFF, "cover_four_byte_char");
 }
 
 #[kani::proof]
@@ -398,6 +388,12 @@ fn c03_longest_symbol_2chars() {
     let a: char = kani::any();
     let b: char = kani::any();
     check_longest_match([a, b, 'x'], 2);
+    kani::cover!(a == '<' && b == '=', "cover_double");
+    kani::cover!(a == '=' && b == '!', "cover_single_then_non_symbol");
+    kani::cover!(a == '!' && b != '=', "cover_lone_bang_then_other");
+    kani::cover!(a == '|' && b == '|', "cover_pipepipe_before_eof");
+    kani::cover!(a == '!' && b == '=', "cover_bang_equals_before_eof");
+    kani::cover!(a == '&' && (b as u32) > 0xFFFF, "cover_amp_then_wide_char");
 }
 
 #[kani::proof]
@@ -408,6 +404,13 @@ fn c03_longest_symbol_3chars() {
     let b: char = kani::any();
     let c: char = kani::any();
     check_longest_match([a, b, c], 3);
+    kani::cover!(a == '=' && b == '=' && c == '=', "cover_triple_eq");
+    kani::cover!(a == '!' && b == '=' && c == '=', "cover_triple_bang");
+    kani::cover!(a == '<' && b == '=' && c == '=', "cover_double_then_equals");
+    kani::cover!(a == '|' && b == '|' && (c as u32) > 0xFFFF, "cover_pipepipe_then_wide_char");
+    kani::cover!(a == '=' && b == '!' && c == '=', "cover_single_then_bang_equals");
+    kani::cover!(a == '!' && b == '!' && c == '=', "cover_no_symbol_three_chars");
+    kani::cover!(a == '=' && b == '=' && c != '=', "cover_double_equals_then_other");
 }
 
 // ---------------------------------------------------------------------------
@@ -439,11 +442,11 @@ fn starts_some_token_or_is_skipped(c: char) -> bool {
         || (c >= 'a' && c <= 'z') || (c >= 'A' && c <= 'Z') || c == '_'
         || (c >= '0' && c <= '9')
         || c == '"' || c == '$'
-        || spec1(c).is_some()
+        || matches!(c, '}' | '{' | ']' | '[' | ':' | ',' | '/' | '.' | '=' | '>' | '<' | '%' | '*' | ')' | '(' | '-' | '+')
 }
 
 #[kani::proof]
-#[kani::unwind(19)]
+#[kani::unwind(3)]
 #[kani::stub(alloc::fmt::format, fmt_stub)]
 #[kani::stub(Lexer::next_keyword_or_ident, Lexer::verif_word_stub)]
 #[kani::stub(Lexer::next_int, Lexer::verif_int_stub)]
